@@ -527,6 +527,13 @@ class Engine:
             return tuple(self.ref_len(st, v, d) for d in range(n))
         if isinstance(v, Ref):
             return PyObj("method", (v, node.attr))
+        if isinstance(v, PyObj) and v.kind == "func" and self.imports.get(v.val, v.val) in ("numpy", "math", "random"):
+            return PyObj("func", self.imports.get(v.val, v.val) + "." + node.attr)
+        if isinstance(v, PyObj) and v.kind == "object":
+            key = "%s.%s" % (v.val, node.attr)
+            if key in st.env:
+                return st.env[key]
+            raise Unsupported("read of unset attribute %s" % key)
         raise Unsupported("attribute %s at line %s" % (node.attr, node.lineno))
 
     def ev_Lambda(self, node, st, guard):
@@ -837,6 +844,24 @@ class Engine:
         return [("normal", st, None)]
 
     def st_AugAssign(self, s, st):
+        if isinstance(s.target, ast.Subscript) and isinstance(s.target.slice, ast.Compare):
+            base = self.ev(s.target.value, st)
+            mask = self.ev(s.target.slice, st)
+            if isinstance(base, Ref) and isinstance(mask, Vec) and self.ref_ndim(st, base) == 1 and not base.prefix:
+                from pyvc import externals
+                externals.USED.add("numpy boolean-mask augmented assignment a[mask] op= v (pointwise)")
+                val = self.ev(s.value, st)
+                ho = st.heap[base.base]
+                old = ho.arr
+                new = fresh(base.base + "'m", arr_sort(ho.elem, 1))
+                i_ = z3.Int("mi!%d" % next(_fresh))
+                upd = self.arith(s.op, z3.Select(old, i_), val, st, s.lineno, ())
+                st.pc.append(z3.ForAll([i_], z3.Select(new, i_) == z3.If(z3.And(0 <= i_, i_ < ho.shape[0], to_bool(mask.at(i_))),
+                                                                      coerce(upd, ho.elem), z3.Select(old, i_)),
+                                       patterns=[z3.Select(new, i_)]))
+                st.heap[base.base] = ho.replace(arr=new)
+                return [("normal", st, None)]
+            raise Unsupported("masked assignment of this shape")
         cur = self.ev(s.target, st)
         val = self.ev(s.value, st)
         self.assign(s.target, self.arith(s.op, cur, val, st, s.lineno, ()), st, s.lineno)
